@@ -51,5 +51,23 @@ for how, hn in enumerate(["Clone", "Set"]):
                           stubs=["math/big.Int with shared storage: struct copies share the limbs; every receiver-writing method writes them in place (worst case of nat.make reuse)", "ModInverse uninterpreted"],
                           functions=["p256.(*residuePoint).%s" % hn, "p256.(*residuePoint).%s" % mn], bound="group P=2039, values 2..2038; programs: copy ; one mutating call",
                           tiers=(["quick", "thorough"] if mn in ("Null", "Add", "Set") else ["thorough"])))
+MOPS = ["Add", "Sub", "Neg", "Mul", "Set", "Zero", "One", "SetInt64", "SetUint64"]
+for mod in [251, 2, 65537]:
+    for op, on in enumerate(MOPS):
+        for pat, pn in enumerate(["distinct", "r=a", "r=b", "a=b", "r=a=b"]):
+            if on in ("Neg", "Set", "Zero", "One", "SetInt64", "SetUint64") and pat in (2, 3, 4):
+                continue
+            H.append(dict(name="mod.Int.%s-m%d-%s" % (on, mod, pn), pkg="./group/mod", files=["harness/C05/modint.go"], entry="HarnessModIntAlias", mode="int",
+                          params={"p0": mod, "p1": op, "p2": pat}, big_shared=True, validate=3,
+                          stubs=["math/big.Int as mathematical integers with shared storage for struct copies"],
+                          functions=["mod.(*Int).%s" % on, "compatible.(*Int).%s" % on], bound="modulus %d, all operand values and all stale receiver values in [0,m), aliasing %s" % (mod, pn),
+                          tiers=(["quick", "thorough"] if mod == 251 else ["thorough"])))
+    for how, hn in enumerate(["Clone", "Set"]):
+        for mu, mn in enumerate(["Add", "Neg", "Zero", "SetInt64", "Mul"]):
+            H.append(dict(name="mod.Int.%s-then-%s-m%d" % (hn, mn, mod), pkg="./group/mod", files=["harness/C05/modint.go"], entry="HarnessModIntCopy", mode="int",
+                          params={"p0": mod, "p1": how, "p2": mu}, big_shared=True, validate=2,
+                          stubs=["math/big.Int with shared storage: struct copies share the limbs"],
+                          functions=["mod.(*Int).%s" % hn, "mod.(*Int).%s" % mn], bound="modulus %d, all values; copy ; one mutating call on either side" % mod,
+                          tiers=(["quick", "thorough"] if mod == 251 and mn in ("Add", "Zero", "Neg") else ["thorough"])))
 json.dump(dict(property="C05", harnesses=H), open(os.path.join(os.path.dirname(__file__), "..", "specs", "C05.json"), "w"), indent=1)
 print(len(H))
